@@ -228,3 +228,39 @@ Proof.
   - intros mp e [i|] [j|] [H|H]; try discriminate; reflexivity.
   - intros t1 t2 i j ud fa a b d Hne. simpl. replace (N.eqb t1 t2) with false by (symmetry; apply N.eqb_neq; exact Hne). reflexivity.
 Qed.
+
+(* ------------------------------------------------------------------ exactly when the cache is written *)
+Lemma cache_get_some_in k c h : cache_get k c = Some h -> In k (keys c).
+Proof.
+  induction c as [|[k' h'] r IH]; simpl; [discriminate|]. destruct (ckey_eqb k k') eqn:E.
+  - intros _. left. apply ckey_eqb_eq in E. auto.
+  - intros H. right. apply IH. exact H.
+Qed.
+
+Lemma wl_cached_has na gi g c : In (gi, na) (keys (snd (wl_cached na gi g c))).
+Proof.
+  unfold wl_cached. destruct (cache_get (gi, na) c) eqn:E; simpl; [eapply cache_get_some_in; eauto | left; reflexivity].
+Qed.
+
+(** _pre_check touches the cache EXACTLY when the engine filters, the orders are equal and the host has at least the pattern's number of
+    edges; then both (graph, node_attrs) entries are present afterwards; otherwise the cache is returned as it was *)
+Theorem pre_check_writes e hi H pi P c :
+  (e_wl e = true /\ n_nodes H = n_nodes P /\ n_edges P <= n_edges H ->
+     In (hi, e_na e) (keys (snd (pre_check e hi H pi P c))) /\ In (pi, e_na e) (keys (snd (pre_check e hi H pi P c)))) /\
+  (~ (e_wl e = true /\ n_nodes H = n_nodes P /\ n_edges P <= n_edges H) -> snd (pre_check e hi H pi P c) = c).
+Proof.
+  unfold pre_check. split.
+  - intros (W & En & Ee).
+    replace (n_nodes H <? n_nodes P) with false by (symmetry; apply Nat.ltb_ge; lia).
+    replace (n_edges H <? n_edges P) with false by (symmetry; apply Nat.ltb_ge; lia).
+    rewrite W. simpl. replace (n_nodes H =? n_nodes P) with true by (symmetry; apply Nat.eqb_eq; exact En). simpl.
+    pose proof (wl_cached_has (e_na e) hi H c) as A. pose proof (wl_cached_keys (e_na e) hi H c) as (A1 & _).
+    destruct (wl_cached (e_na e) hi H c) as [hw c1]. simpl in *.
+    pose proof (wl_cached_has (e_na e) pi P c1) as B. pose proof (wl_cached_keys (e_na e) pi P c1) as (B1 & _).
+    destruct (wl_cached (e_na e) pi P c1) as [pw c2]. simpl in *. split; [apply B1; exact A | exact B].
+  - intros Hn. destruct ((n_nodes H <? n_nodes P) || (n_edges H <? n_edges P)) eqn:T; [reflexivity|].
+    apply orb_false_iff in T. destruct T as (T1 & T2). apply Nat.ltb_ge in T1. apply Nat.ltb_ge in T2.
+    destruct (e_wl e) eqn:W; simpl; [|reflexivity].
+    destruct (n_nodes H =? n_nodes P) eqn:En; simpl; [|reflexivity].
+    apply Nat.eqb_eq in En. exfalso. apply Hn. auto.
+Qed.
